@@ -372,6 +372,78 @@ pub fn deviation_cases(h: usize, m: usize, k: usize) -> Vec<Vec<(u16, u16)>> {
     out
 }
 
+/// The same space as `deviation_cases`, addressed by index instead of materialised (for spaces of
+/// tens of millions of cases): case `idx` of `dev_count(h, m, k)`, ordered by number of deviations.
+pub fn dev_count(h: usize, m: usize, k: usize) -> u64 {
+    (0..=k).map(|j| binom(h as u64, j as u64) * ipow(m as u64, j)).sum()
+}
+fn binom(n: u64, r: u64) -> u64 {
+    if r > n {
+        return 0;
+    }
+    let mut c: u64 = 1;
+    for i in 0..r {
+        c = c * (n - i) / (i + 1);
+    }
+    c
+}
+pub fn dev_case(h: usize, m: usize, k: usize, mut idx: u64) -> Vec<(u16, u16)> {
+    let mut j = 0usize;
+    loop {
+        let cnt = binom(h as u64, j as u64) * ipow(m as u64, j);
+        if idx < cnt {
+            break;
+        }
+        idx -= cnt;
+        j += 1;
+        assert!(j <= k, "deviation index out of range");
+    }
+    let alts = ipow(m as u64, j);
+    let mut a = idx % alts;
+    let mut c = idx / alts;
+    // unrank the c-th j-subset of 0..h in lexicographic order
+    let mut out = Vec::with_capacity(j);
+    let mut start = 0u64;
+    for r in (1..=j as u64).rev() {
+        let mut p = start;
+        loop {
+            let below = binom(h as u64 - p - 1, r - 1);
+            if c < below {
+                break;
+            }
+            c -= below;
+            p += 1;
+        }
+        out.push((p as u16, 0u16));
+        start = p + 1;
+    }
+    for slot in out.iter_mut().rev() {
+        slot.1 = (a % m as u64) as u16;
+        a /= m as u64;
+    }
+    out
+}
+/// Machinery self-check: the indexed space equals the materialised one (as sets, and in size).
+pub fn dev_selftest() {
+    for (h, m, k) in [(6usize, 3usize, 3usize), (9, 2, 2), (5, 4, 1), (4, 2, 4)] {
+        let mut a = deviation_cases(h, m, k);
+        let n = dev_count(h, m, k);
+        assert_eq!(a.len() as u64, n, "dev_count disagrees for {:?}", (h, m, k));
+        let mut b: Vec<Vec<(u16, u16)>> = (0..n).map(|i| dev_case(h, m, k, i)).collect();
+        a.sort();
+        b.sort();
+        assert!(a == b, "dev_case does not enumerate the deviation space {:?}", (h, m, k));
+    }
+}
+pub fn par_devs<F>(eng: &mut Eng, h: usize, m: usize, k: usize, budget: Budget, f: F)
+where
+    F: Fn(&Vec<(u16, u16)>, &mut Eng) + Sync,
+{
+    let n = dev_count(h, m, k);
+    let chunk = (n / (threads() as u64 * 32)).clamp(1, 1024);
+    par(eng, n, chunk, budget, |i, e| f(&dev_case(h, m, k, i), e));
+}
+
 pub fn par_cases<C: Sync, F>(eng: &mut Eng, cases: &[C], budget: Budget, f: F)
 where
     F: Fn(&C, &mut Eng) + Sync,
@@ -379,6 +451,30 @@ where
     let n = cases.len() as u64;
     let chunk = (n / (threads() as u64 * 32)).clamp(1, 1024);
     par(eng, n, chunk, budget, |i, e| f(&cases[i as usize], e));
+}
+
+/// Timestamps spread over the whole i64 range: neighbours here are further apart than i64::MAX,
+/// so a comparison done through a (wrapping or saturating) difference instead of `<` goes wrong.
+pub const SPREAD: [i64; 8] = [i64::MIN, i64::MIN + 1, -5_000_000_000_000_000_000, -1, 0, 5_000_000_000_000_000_000, i64::MAX - 1, i64::MAX];
+/// Strictly increasing maps level -> time for `levels` levels (1..=8) over `SPREAD`: evenly spread,
+/// packed at the bottom, packed at the top. Empty for more than 8 levels.
+pub fn extreme_level_maps(levels: usize) -> Vec<Vec<i64>> {
+    if levels == 0 || levels > 8 {
+        return Vec::new();
+    }
+    if levels == 1 {
+        return vec![vec![i64::MIN], vec![i64::MAX]];
+    }
+    let spread: Vec<i64> = (0..levels).map(|r| SPREAD[r * 7 / (levels - 1)]).collect();
+    let bottom: Vec<i64> = (0..levels).map(|r| SPREAD[r]).collect();
+    let top: Vec<i64> = (0..levels).map(|r| SPREAD[8 - levels + r]).collect();
+    let mut v = vec![spread];
+    for m in [bottom, top] {
+        if !v.contains(&m) {
+            v.push(m);
+        }
+    }
+    v
 }
 
 /// All weak orders (ordered set partitions) of k items, as rank vectors: ranks[i] is the
